@@ -840,13 +840,14 @@ func (data *Data) ReSharding(info *ReShardingInfo) error {
 	}
 
 	startTime := time.Unix(0, info.SplitTime+1)
-	data.createIndexGroup(info.Database, rp, startTime)
+	igID := data.createIndexGroup(info.Database, rp, startTime)
 	DataLogger.Info("reSharding info", zap.Time("splitTime", time.Unix(0, info.SplitTime+1)), zap.Any("bounds", info.Bounds))
-	err = data.CreateShardGroupWithBounds(info.Database, rp, startTime, info.Bounds, rp.ShardGroups[length-1].EngineType) // shard group id start from 1...
+	err = data.CreateShardGroupWithBounds(info.Database, rp, startTime, info.Bounds, rp.ShardGroups[length-1].EngineType, igID) // shard group id start from 1...
 	return err
 }
 
-func (data *Data) createIndexGroup(db string, rp *RetentionPolicyInfo, startTime time.Time) {
+// createIndexGroup returns the id of the index group it created.
+func (data *Data) createIndexGroup(db string, rp *RetentionPolicyInfo, startTime time.Time) uint64 {
 	length := len(rp.ShardGroups)
 	endTime := rp.ShardGroups[length-1].EndTime
 	igLen := len(rp.IndexGroups)
@@ -870,9 +871,11 @@ func (data *Data) createIndexGroup(db string, rp *RetentionPolicyInfo, startTime
 	}
 	rp.IndexGroups = append(rp.IndexGroups, igi)
 	sort.Sort(IndexGroupInfos(rp.IndexGroups))
+	return igi.ID
 }
 
-func (data *Data) CreateShardGroupWithBounds(db string, rp *RetentionPolicyInfo, startTime time.Time, bounds []string, engineType config.EngineType) error {
+// CreateShardGroupWithBounds: igID names the index group created for the new shard group.
+func (data *Data) CreateShardGroupWithBounds(db string, rp *RetentionPolicyInfo, startTime time.Time, bounds []string, engineType config.EngineType, igID uint64) error {
 	// Create the shard group.
 	data.MaxShardGroupID++
 	sgi := ShardGroupInfo{}
@@ -882,7 +885,15 @@ func (data *Data) CreateShardGroupWithBounds(db string, rp *RetentionPolicyInfo,
 	sgi.EndTime = lastSg.EndTime.UTC()
 	sgi.EngineType = engineType
 
+	// the index group made for this shard group has an index for every partition; it is not always
+	// the last one in sort order (an older group may start later and have fewer indexes)
 	igi := rp.IndexGroups[len(rp.IndexGroups)-1]
+	for i := range rp.IndexGroups {
+		if rp.IndexGroups[i].ID == igID {
+			igi = rp.IndexGroups[i]
+			break
+		}
+	}
 	shardN := len(bounds) + 1
 	index := 0
 	// Create shards on the group.
